@@ -845,7 +845,7 @@ def seeded_cases(rng, n):
 def cres(r):
     vals, end = r
     code = {'stop': 0, 'more': 2}.get(end, 1)
-    return '(%s, %s)' % (clist(vals, cval), cnat(code))
+    return '(R %s %s)' % (clist(vals, cval), cnat(code))
 
 
 def ctable(draws):
@@ -868,6 +868,7 @@ HEADER = ('From Coq Require Import ZArith QArith List NArith. Import ListNotatio
           'Require Import SC3.lib.PyNum SC3.model.Pattern.\nOpen Scope nat_scope.\n'
           'Definition fuel := N.to_nat %d%%N.\n' % FUEL)
 HEADER += ('Definition T (l : list (Z * hist * Z * Z * Z)) := l.\n'
+           'Definition R (l : list val) (n : nat) := (l, n).\n'
            'Definition chk (c : pat * nat * (list val * nat) * list (Z * hist * Z * Z * Z)) : nat :=\n'
            '  let \'(p, n, r, tbl) := c in let m := run_pat (mk_rnd tbl) fuel n p in\n'
            '  if Nat.eqb (rend_code (snd m)) 3 then 2 else if res_eqb m r then 0 else 1.\n'
